@@ -15,6 +15,7 @@ func init() {
 	vrt.Register("C11_failures", Failures)
 	vrt.Register("C11_uses", Uses)
 	vrt.Register("C11_method_chains", MethodChains)
+	vrt.Register("C11_more_shapes", MoreShapes)
 }
 
 type T struct {
@@ -317,5 +318,98 @@ func MethodChains() {
 	got, err := render(in, ctx)
 	vrt.Assert(err == nil, "a chain of method calls renders: "+c.expr)
 	vrt.Assert(got == want, "a chain of method calls yields the value of the same chain in Go: "+c.expr)
+	vrt.Cover("done")
+}
+
+// further shapes of data graphs: embedded structs (promoted fields and methods),
+// interface-typed fields, slices of pointers, maps with int keys, maps of maps,
+// maps of slices, pointers to slices
+type Base struct {
+	BName string
+	ID    int
+}
+
+func (b Base) Tag() string { return b.BName }
+
+type Rich struct {
+	Base
+	Title string
+	Any   interface{}
+	Ptrs  []*Rich
+	ByID  map[int]Base
+	Deep  map[string]map[string]string
+	Lists map[string][]Base
+	PS    *[]Base
+}
+
+func MoreShapes() {
+	mk := func() Base { return Base{BName: leaf(), ID: vrt.Int()} }
+	child := &Rich{Base: mk(), Title: leaf()}
+	bs := []Base{mk(), mk()}
+	r := Rich{
+		Base:  mk(),
+		Title: leaf(),
+		Any:   mk(),
+		Ptrs:  []*Rich{child, nil},
+		ByID:  map[int]Base{1: mk(), 7: mk()},
+		Deep:  map[string]map[string]string{"a": {"b": leaf()}, "c": {"d": leaf()}},
+		Lists: map[string][]Base{"l": {mk(), mk()}},
+		PS:    &bs,
+	}
+	ctx := plush.NewContext()
+	ctx.Set("r", r)
+	ctx.Set("rp", &r)
+	n := vrt.Int()
+	ctx.Set("n", n)
+	type cs struct {
+		expr string
+		want string
+		ok   bool
+	}
+	inb := func(i, l int) bool {
+		if i < 0 {
+			return false
+		}
+		return i < l
+	}
+	byID, hit := r.ByID[n]
+	cases := []cs{
+		{"r.BName", r.BName, true},
+		{"r.ID", itoa(r.ID), true},
+		{"r.Base.BName", r.Base.BName, true},
+		{"r.Tag()", r.Tag(), true},
+		{"rp.BName", r.BName, true},
+		{"rp.Tag()", r.Tag(), true},
+		{"r.Title", r.Title, true},
+		{"r.Any.BName", r.Any.(Base).BName, true},
+		{"r.Ptrs[0].Title", child.Title, true},
+		{"r.Ptrs[0].BName", child.BName, true},
+		{"r.Ptrs[0].Tag()", child.Tag(), true},
+		{"r.Ptrs[1].Title", "", false},
+		{"r.ByID[1].BName", r.ByID[1].BName, true},
+		{"r.ByID[7].ID", itoa(r.ByID[7].ID), true},
+		{"r.ByID[n].BName", byID.BName, hit},
+		{"r.ByID[2].BName", "", false},
+		{"r.Deep[\"a\"][\"b\"]", r.Deep["a"]["b"], true},
+		{"r.Deep[\"c\"][\"d\"]", r.Deep["c"]["d"], true},
+		{"r.Deep[\"a\"][\"d\"]", "", false},
+		{"r.Lists[\"l\"][1].BName", r.Lists["l"][1].BName, true},
+		{"r.Lists[\"l\"][0].Tag()", r.Lists["l"][0].Tag(), true},
+		{"r.PS[1].BName", bs[1].BName, true},
+		{"r.PS[n].BName", "", false},
+	}
+	c := cases[vrt.Choice(len(cases))]
+	if c.expr == "r.PS[n].BName" {
+		if inb(n, 2) {
+			c.want, c.ok = bs[n].BName, true
+		}
+	}
+	got, err := render("[<%= "+c.expr+" %>]", ctx)
+	if c.ok {
+		vrt.Assert(err == nil, "a path that Go can navigate renders: "+c.expr)
+		vrt.Assert(got == "["+c.want+"]", "the path yields exactly the value of the same navigation in Go: "+c.expr)
+	} else {
+		vrt.Assert(err != nil || got == "[]", "navigation that cannot be completed: an error or empty output, never a value: "+c.expr)
+	}
 	vrt.Cover("done")
 }
